@@ -15,7 +15,7 @@ RESN = ['ALA', 'GLY', 'LYS', 'TRP', 'SER', 'VAL']
 
 def make_world(rng, root, nspecies=None, ninst=(1, 12), order='random', box_kind='rect', with_solvent=True,
                with_vel=False, title=None, end_for=None, multi_res_prob=0.35, small_prob=0.3,
-               unique_grid=False, sizes_hint=None, resid_mode='consecutive', end_extra=None, counts=None, coarsen=False):
+               unique_grid=False, sizes_hint=None, resid_mode='consecutive', end_extra=None, counts=None, coarsen=False, homopolymer_prob=0.0):
     """Returns a dict describing the world (see keys below)."""
     os.makedirs(root, exist_ok=True)
     counts_in = counts
@@ -34,7 +34,14 @@ def make_world(rng, root, nspecies=None, ninst=(1, 12), order='random', box_kind
                 sizes = [int(rng.integers(1, 5)) for _ in range(int(rng.integers(2, 5)))]
             else:
                 sizes = [int(rng.integers(3, 9))]
-            if len(sizes) > 1:
+            homo = sizes_hint is None and rng.random() < homopolymer_prob
+            if homo:
+                # a homopolymer: the same residue (name, size, atom names) two to four times - its residue sequence
+                # overlaps itself under a shift, and neighbouring molecules continue each other's pattern
+                sizes = [int(rng.integers(1, 4))] * int(rng.integers(2, 5))
+            if len(sizes) > 1 and homo:
+                resn = [name[:3] + 'P'] * len(sizes)
+            elif len(sizes) > 1:
                 # distinct residue names inside a species: two residues with equal (name, size) but
                 # different atom names are outside the domain of the recognition algorithm
                 resn = [RESN[int(i)] for i in rng.choice(len(RESN), len(sizes), replace=False)]
@@ -43,6 +50,8 @@ def make_world(rng, root, nspecies=None, ninst=(1, 12), order='random', box_kind
             sig = {(rn, s) for rn, s in zip(resn, sizes)}
             # end resolution: same residues, strictly more atoms each
             esizes = [s + (int(rng.integers(1, 6)) if end_extra is None else int(end_extra)) for s in sizes]
+            if homo:
+                esizes = [esizes[0]] * len(sizes)
             esig = {(rn, s) for rn, s in zip(resn, esizes)}
             if not (sig & used_sig) and not (esig & used_sig) and not (sig & esig):
                 used_sig |= sig | esig
@@ -51,10 +60,14 @@ def make_world(rng, root, nspecies=None, ninst=(1, 12), order='random', box_kind
             raise RuntimeError('could not make distinct signatures')
         species[name] = sysgen.make_species(rng, name, sizes, resn, prefix='B')
         end = sysgen.make_species(rng, name, esizes, resn, prefix='C', bond=(0.09, 0.16))
+        if homo:
+            for sp_, size_ in ((species[name], sizes[0]), (end, esizes[0])):
+                sp_['atoms'] = [(sp_['atoms'][j % size_][0], rn_, rid_) for j, (_, rn_, rid_) in enumerate(sp_['atoms'])]
+            species[name]['homopolymer'] = True
         # a few hydrogens in the end resolution
         atoms = []
         for i, (nm, rn, rid) in enumerate(end['atoms']):
-            if i > 0 and rng.random() < 0.3:
+            if i > 0 and rng.random() < 0.3 and not homo:
                 nm = f'H{i}'
             atoms.append((nm, rn, rid))
         end['atoms'] = atoms
